@@ -20,7 +20,7 @@ type C02Case struct {
 
 func c02Opt() ragen.GenOpt {
 	o := ragen.GenOpt{
-		Rx:           ragen.RxOpt{Stress: 50, MaxDepth: 2},
+		Rx:           ragen.RxOpt{Stress: 50, MaxDepth: 2, InlineFlags: true},
 		MaxDepth:     2,
 		MaxItems:     6,
 		Flags:        true,
